@@ -149,6 +149,8 @@ def compute_impl(case, verbose=False, neighbours_obj=None):
         kw['is_independent'] = fs if len(fs) > 1 or case.get('crit_as_list') else fs[0]
     if case.get('periodic'):
         per = list(case['periodic'])
+        if case.get('per_negative'):
+            per = [a_ - len(case['shape']) for a_ in per]
         kw['neighbours'] = neighbours_obj or periodic_neighbours(per if len(per) != 1 or case.get('per_as_list') else per[0])
     elif case.get('adj', 'grid') == 'diag':
         kw['neighbours'] = diag_neighbours
